@@ -59,6 +59,8 @@ var checks = map[string][]HarnessSpec{
 		{Name: "verifC10AfterReturn", Pkg: ".", Labels: []string{"after-return"}},
 		{Name: "verifC10WhileBlocked", Pkg: ".", Labels: []string{"cancelled", "ok"}},
 		{Name: "verifC10Timeout", Pkg: ".", Labels: []string{"timeout-after-return", "timeout-stalled"}},
+		{Name: "verifC10Accepted", Pkg: ".", Labels: []string{"accepted-after-cancel"}},
+		{Name: "verifC10CancelledAtEntry", Pkg: ".", Labels: []string{"entry-ok"}},
 	},
 	"C11": {
 		{Name: "verifC11Encode", Pkg: ".", Labels: []string{"roundtrip"}},
